@@ -13,6 +13,7 @@ import (
 	"context"
 	"crypto/tls"
 	"fmt"
+	"io"
 	"net"
 	"net/http"
 	"net/http/httptest"
@@ -52,7 +53,8 @@ func (s *rrState) start(base string) {
 	s.p = p
 	s.origin = httptest.NewServer(http.HandlerFunc(func(w http.ResponseWriter, r *http.Request) {
 		w.Header().Set("Cache-Control", "max-age=60")
-		w.Write([]byte("origin-body"))
+		io.Copy(io.Discard, r.Body)
+		w.Write([]byte("origin-body:" + r.URL.Path))
 	}))
 	ou, _ := url.Parse(s.origin.URL)
 	s.ohost = ou.Host
@@ -103,7 +105,8 @@ func init() {
 				}
 				defer conn.Close()
 				o.Count("transport:" + f[1])
-				if f[1] == "tunnel" {
+				var tcConn *tls.Conn
+				if f[1] == "tunnel" || f[1] == "tunnel2" {
 					fmt.Fprintf(conn, "CONNECT %s HTTP/1.1\r\nHost: %s\r\n\r\n", s.ohost, s.ohost)
 					br := bufio.NewReader(conn)
 					resp, err := http.ReadResponse(br, nil)
@@ -116,10 +119,40 @@ func init() {
 					if err := tc.Handshake(); err != nil {
 						return "handshake-failed"
 					}
+					tcConn = tc
 					tc.Write([]byte(head))
-					r := rrClassify(bufio.NewReader(tc), tc)
-					o.Count("result:" + strings.SplitN(r, ":", 2)[0])
-					return r
+					if f[1] == "tunnel" {
+						r := rrClassify(bufio.NewReader(tc), tc)
+						o.Count("result:" + strings.SplitN(r, ":", 2)[0])
+						return r
+					}
+				}
+				if f[1] == "tunnel2" {
+					// the odd exchange, then an ordinary one on the SAME tunnel: it must get its own answer (or find the
+					// tunnel closed), never the answer to something else
+					tcr := bufio.NewReader(tcConn)
+					tcConn.SetDeadline(time.Now().Add(6 * time.Second))
+					first := "closed"
+					if resp, err := http.ReadResponse(tcr, nil); err == nil {
+						io.Copy(io.Discard, resp.Body)
+						resp.Body.Close()
+						first = fmt.Sprintf("status:%d", resp.StatusCode)
+					}
+					o.Count("result:" + strings.SplitN(first, ":", 2)[0])
+					fmt.Fprintf(tcConn, "GET /second HTTP/1.1\r\nHost: %s\r\n\r\n", s.ohost)
+					second := "closed"
+					if resp, err := http.ReadResponse(tcr, nil); err == nil {
+						b, _ := io.ReadAll(resp.Body)
+						resp.Body.Close()
+						if resp.StatusCode == 200 && string(b) == "origin-body:/second" {
+							second = "own-answer"
+						} else {
+							second = fmt.Sprintf("other-answer(%d:%q)", resp.StatusCode, truncStr(string(b), 40))
+						}
+					}
+					return first + " then " + second
+				}
+				if false {
 				}
 				conn.Write([]byte(head))
 				r := rrClassify(bufio.NewReader(conn), conn)
@@ -179,7 +212,29 @@ func init() {
 					tr = "tunnel"
 				}
 				emit("rr", tr, hx(head))
+				if r.Chance(25) {
+					// a request WITH a body whose bytes would parse as a request of their own, under an odd Host or target:
+					// whatever the proxy makes of it, the next exchange on the tunnel is the client's next request
+					phantom := "GET /phantom HTTP/1.1\r\nHost: phantom.example\r\n\r\n"
+					bh := r.Pick([]string{"@ORIGIN@", "127.0.0.1:1234x", "a b", "[::1", "%zz", "@ORIGIN@:99999", ""})
+					bm := r.Pick([]string{"POST", "PUT", "GET", "DELETE"})
+					bt := r.Pick([]string{"/first", "http://@ORIGIN@/first", "/%zz", "*"})
+					var bhead string
+					if r.Chance(50) {
+						bhead = fmt.Sprintf("%s %s HTTP/1.1\r\nHost: %s\r\nContent-Length: %d\r\n\r\n%s", bm, bt, bh, len(phantom), phantom)
+					} else {
+						bhead = fmt.Sprintf("%s %s HTTP/1.1\r\nHost: %s\r\nTransfer-Encoding: chunked\r\n\r\n%x\r\n%s\r\n0\r\n\r\n", bm, bt, bh, len(phantom), phantom)
+					}
+					emit("rr", "tunnel2", hx(bhead))
+				}
 			}
 		},
 	}
+}
+
+func truncStr(s string, n int) string {
+	if len(s) > n {
+		return s[:n]
+	}
+	return s
 }
